@@ -105,6 +105,16 @@ CHECKS = {
    design_ref='DESIGN.md par.5 C05',
    note='gpg itself (cryptography, trust database, key states) is behind a binary: its '
         'documented status protocol stands in; <=4 status lines; VALIDSIG well-formed'),
+ 'C04': dict(
+   text='The real ManifestFile.load runs on line sequences built from a canonical prefix that '
+        'drives the parser into each of its states, 2 (quick) / 3 (thorough) lines chosen '
+        'symbolically from 19 line classes, and a canonical completion, with a recording '
+        'OpenPGP backend that accepts or refuses; entries, the exact text handed to '
+        'verification, the error class and the signed flag must equal an RFC 4880 par.7 '
+        'reference automaton.',
+   design_ref='DESIGN.md par.5 C04',
+   note='lines are symbolic choices among concrete shapes; gpg\'s own notion of the cleartext is '
+        'behind a binary; silent cases of the statement accept both behaviours'),
 }
 
 NOT_APPLICABLE = {
